@@ -56,6 +56,8 @@ def search(ctx):
         s, fam = gen.segment(rng, fam=rng.choice(['int', 'float', 'grid', 'collinear', 'big']))
         t = gen.tvalue(rng)
         f = check(s, t)
+        if f == [] and rng.random() < 0.25:
+            f = gen.freshness(rng, s, {'tangentAtTime': lambda x: x.tangentAtTime(t), 'normalAtTime': lambda x: x.normalAtTime(t), 'curvatureAtTime': lambda x: x.curvatureAtTime(t)})
         if f is None: dist['skipped-slow'] = dist.get('skipped-slow', 0) + 1; continue
         ev += 1; dist[f'{type(s).__name__}/{fam}'] = dist.get(f'{type(s).__name__}/{fam}', 0) + 1
         seen.add((gen.seg_key(s), t))
